@@ -153,5 +153,8 @@ def run(ctx: Ctx):
     ctx.check(ok, "R12.b", sch.key("forward"), "scheme builder receives remove_unused=self.remove_unused", "CodeGenerator.scheme does not pass remove_unused=self.remove_unused to the builder", sch.where())
 
     # ---- R12.c same layout -----------------------------------------------------------------------
-    ctx.rule("R12.c", "state slot layout is the same with and without removal (STATE slot family, remove_unused is a post-sort filter over intermediates)", floor=10)
+    ctx.rule("R12.c", "state and parameter slot layouts are the same with and without removal (STATE and PARAM slot families, remove_unused is a post-sort filter over intermediates)", floor=10)
     slot_families(ctx, "R12.c", only_family="STATE", check_guard=False)
+    # the parameter layout: every producer of parameter slots numbers the same sequence (a producer that filters by use
+    # *before* numbering renumbers the used parameters)
+    slot_families(ctx, "R12.c", only_family="PARAM", check_guard=False, check_ru=False)
